@@ -35,6 +35,7 @@ func (s *FileSet) IsInSetSmart(name string) bool {
 		return true
 	}
 	// check ...
+	isRoot := name == "/"
 	level := 0
 	for level = 0; name != ""; level++ {
 		if level == 1 && s.Set[name+"/*"] {
@@ -45,7 +46,8 @@ func (s *FileSet) IsInSetSmart(name string) bool {
 		}
 		name = dirname(name)
 	}
-	if level == 1 && s.Set["/*"] {
+	// "/*" covers the direct children of the root, not the root itself
+	if level == 1 && !isRoot && s.Set["/*"] {
 		return true
 	}
 	if s.Set["/"] {
